@@ -2,6 +2,9 @@ package main
 
 import (
 	"fmt"
+	"go/ast"
+	"go/token"
+	"path/filepath"
 	"strings"
 
 	"github.com/mmcloughlin/avo/ir"
@@ -91,24 +94,268 @@ func matchedForm(db *formsDB, opcode string, sfx []string, ops []operand.Op) *fo
 	return nil
 }
 
-// encUseDef encodes an instruction's operands with the actions of its form.
+// ---------------------------------------------------------------------------
+// The SPECIFICATION side of the use/def comparison.  Nothing below goes through the code under test
+// (ir.Instruction.InputRegisters/OutputRegisters, operand.Registers, operand.IsR32/IsMem, action.Read/Write,
+// implreg.Register, pass.ZeroExtend32BitOutputs):
+//   * operand actions: the symbolic action NAMES written in the rows of x86/zoptab.go (actionN/R/W/RW), read with
+//     go/ast and interpreted by their letters — independent of the constants' numbering and of action.Read/Write;
+//   * implicit operands: the register NAMED by the implreg constant (implregEAX -> 32-bit view of register A),
+//     resolved here through the architectural naming rules, not through implreg.Register();
+//   * address registers: own traversal of the fields Base and Index of operand.Mem (Index may be a vector register);
+//   * the "32-bit general-purpose destination" flag: from the register's own kind and byte mask.
+// ---------------------------------------------------------------------------
+
+// c02Spec holds, per row of the form table, the operand actions (bit 0 read, bit 1 write) named in the source.
+type c02Spec struct {
+	acts   [][]uint8
+	usable bool   // false: the source rows could not be read in this shape; the compiled table is used instead
+	why    string // reason when not usable
+	// number of rows whose named actions differ from the compiled ones (each of them also shows as a usedef mismatch)
+	disagree int
+}
+
+var c02TheSpec *c02Spec
+
+func c02ActionByName(name string) (uint8, bool) {
+	if !strings.HasPrefix(name, "action") {
+		return 0, false
+	}
+	switch strings.ToUpper(strings.TrimPrefix(name, "action")) {
+	case "N", "NONE":
+		return 0, true
+	case "R", "READ":
+		return 1, true
+	case "W", "WRITE":
+		return 2, true
+	case "RW", "WR", "READWRITE":
+		return 3, true
+	}
+	return 0, false
+}
+
+// c02LoadSpec reads the action names of every operand of every row of `var forms` in x86/zoptab.go. It is tolerant
+// of the literal's shape (keyed or positional fields, any nesting): an operand is an innermost composite literal
+// containing an identifier called action*; rows are the elements of the outer literal. When the rows cannot be
+// aligned with the compiled table the result is marked unusable (never an alarm by itself).
+func c02LoadSpec(repo string, db *formsDB) *c02Spec {
+	sp := &c02Spec{}
+	fail := func(format string, a ...any) *c02Spec {
+		sp.usable, sp.why, sp.acts = false, fmt.Sprintf(format, a...), nil
+		return sp
+	}
+	_, f, err := parseFile(filepath.Join(repo, "x86", "zoptab.go"))
+	if err != nil {
+		return fail("parse: %v", err)
+	}
+	var table *ast.CompositeLit
+	for _, d := range f.Decls {
+		gd, ok := d.(*ast.GenDecl)
+		if !ok || gd.Tok != token.VAR {
+			continue
+		}
+		for _, s := range gd.Specs {
+			vs := s.(*ast.ValueSpec)
+			for i, n := range vs.Names {
+				if n.Name == "forms" && i < len(vs.Values) {
+					if cl, ok := vs.Values[i].(*ast.CompositeLit); ok {
+						table = cl
+					}
+				}
+			}
+		}
+	}
+	if table == nil {
+		return fail("no composite literal `var forms`")
+	}
+	if len(table.Elts) != len(db.rows) {
+		return fail("%d source rows, %d compiled rows", len(table.Elts), len(db.rows))
+	}
+	for ri, row := range table.Elts {
+		var acts []uint8
+		bad := ""
+		ast.Inspect(row, func(n ast.Node) bool {
+			cl, ok := n.(*ast.CompositeLit)
+			if !ok {
+				return true
+			}
+			inner := true
+			var names []string
+			for _, e := range cl.Elts {
+				if kv, ok := e.(*ast.KeyValueExpr); ok {
+					e = kv.Value
+				}
+				switch v := e.(type) {
+				case *ast.CompositeLit:
+					inner = false
+				case *ast.Ident:
+					if strings.HasPrefix(v.Name, "action") {
+						names = append(names, v.Name)
+					}
+				}
+			}
+			if inner && len(names) == 1 {
+				a, ok := c02ActionByName(names[0])
+				if !ok {
+					bad = "unknown action name " + names[0]
+				}
+				acts = append(acts, a)
+			} else if inner && len(names) > 1 {
+				bad = "several action names in one operand literal"
+			}
+			return true
+		})
+		if bad != "" {
+			return fail("row %d: %s", ri, bad)
+		}
+		if len(acts) != len(db.rows[ri].Operands) {
+			return fail("row %d (%s): %d operands with a named action in the source, %d in the compiled table", ri, db.rows[ri].Opcode, len(acts), len(db.rows[ri].Operands))
+		}
+		for j, a := range acts {
+			if a != db.rows[ri].Operands[j].Action {
+				sp.disagree++
+				break
+			}
+		}
+		sp.acts = append(sp.acts, acts)
+	}
+	sp.usable = true
+	return sp
+}
+
+// c02Action is the specified action of operand j of row f.
+func c02Action(f *formRow, j int) uint8 {
+	if sp := c02TheSpec; sp != nil && sp.usable && f.Index < len(sp.acts) && j < len(sp.acts[f.Index]) {
+		return sp.acts[f.Index][j]
+	}
+	return f.Operands[j].Action
+}
+
+// c02NamedRegister resolves an architectural register name as used by the implreg constants ("al", "ax", "eax",
+// "rax", "r11", "x0", ...) to the register, by the naming rules of the architecture.
+func c02NamedRegister(name string) reg.Register {
+	name = strings.ToLower(name)
+	if len(name) >= 2 && (name[0] == 'x' || name[0] == 'y' || name[0] == 'z') && name[1] >= '0' && name[1] <= '9' {
+		n := 0
+		for _, c := range name[1:] {
+			if c < '0' || c > '9' {
+				return nil
+			}
+			n = n*10 + int(c-'0')
+		}
+		s := map[byte]reg.Spec{'x': reg.S128, 'y': reg.S256, 'z': reg.S512}[name[0]]
+		for _, p := range reg.Vector.Registers() {
+			if int(p.PhysicalIndex()) == n && p.Mask() == s.Mask() {
+				return p
+			}
+		}
+		return nil
+	}
+	gp := func(idx int, s reg.Spec) reg.Register {
+		for _, p := range reg.GeneralPurpose.Registers() {
+			if int(p.PhysicalIndex()) == idx && p.Mask() == s.Mask() {
+				return p
+			}
+		}
+		return nil
+	}
+	// hardware encoding order of the legacy registers
+	legacy := map[string]int{"a": 0, "c": 1, "d": 2, "b": 3}
+	legacy2 := map[string]int{"sp": 4, "bp": 5, "si": 6, "di": 7}
+	if len(name) == 2 {
+		if i, ok := legacy[name[:1]]; ok {
+			switch name[1] {
+			case 'l':
+				return gp(i, reg.S8L)
+			case 'h':
+				return gp(i, reg.S8H)
+			case 'x':
+				return gp(i, reg.S16)
+			}
+		}
+	}
+	if len(name) == 3 && (name[0] == 'e' || name[0] == 'r') && name[2] == 'x' {
+		if i, ok := legacy[name[1:2]]; ok {
+			if name[0] == 'e' {
+				return gp(i, reg.S32)
+			}
+			return gp(i, reg.S64)
+		}
+	}
+	if i, ok := legacy2[name]; ok {
+		return gp(i, reg.S16)
+	}
+	if len(name) == 3 && (name[0] == 'e' || name[0] == 'r') {
+		if i, ok := legacy2[name[1:]]; ok {
+			if name[0] == 'e' {
+				return gp(i, reg.S32)
+			}
+			return gp(i, reg.S64)
+		}
+	}
+	if len(name) >= 2 && name[0] == 'r' && name[1] >= '0' && name[1] <= '9' {
+		n, k := 0, 1
+		for k < len(name) && name[k] >= '0' && name[k] <= '9' {
+			n = n*10 + int(name[k]-'0')
+			k++
+		}
+		s, ok := map[string]reg.Spec{"": reg.S64, "d": reg.S32, "l": reg.S32, "w": reg.S16, "b": reg.S8L}[name[k:]]
+		if ok && n >= 8 && n <= 15 {
+			return gp(n, s)
+		}
+	}
+	return nil
+}
+
+var c02ImplUnresolved = map[string]bool{}
+
+// c02ImplicitRegister is the register of implicit operand j of row f, by its NAME in the source table.
+func c02ImplicitRegister(f *formRow, j int) reg.Register {
+	if j < len(f.TypeNames) {
+		if r := c02NamedRegister(f.TypeNames[j]); r != nil {
+			return r
+		}
+		c02ImplUnresolved[f.TypeNames[j]] = true
+	}
+	return x86.VerifImplReg(f.Operands[j].Type)
+}
+
+// c02MemRegs lists the address registers of a memory operand: base and index, whatever their kind.
+func c02MemRegs(m operand.Mem) []reg.Register {
+	var rs []reg.Register
+	if m.Base != nil {
+		rs = append(rs, m.Base)
+	}
+	if m.Index != nil {
+		rs = append(rs, m.Index)
+	}
+	return rs
+}
+
+// c02IsGP32 reports a 32-bit general-purpose register, from the register's own kind and byte mask.
+func c02IsGP32(r reg.Register) bool {
+	return r.Kind() == reg.KindGP && r.Mask() == reg.S32.Mask()
+}
+
+// encUseDef encodes an instruction's operands with the actions its form specifies (see the comment above:
+// the specification side uses nothing of the code under test).
 func encUseDef(f *formRow, ops []operand.Op) string {
 	parts := []string{b01(f.Features&featCancelling != 0), itoa(len(f.Operands))}
 	k := 0
-	for _, o := range f.Operands {
+	for j, o := range f.Operands {
 		var op operand.Op
 		if o.Implicit {
-			op = x86.VerifImplReg(o.Type)
+			op = c02ImplicitRegister(f, j)
 		} else {
 			op = ops[k]
 			k++
 		}
-		act := itoa(int(o.Action))
+		act := itoa(int(c02Action(f, j)))
 		switch v := op.(type) {
 		case reg.Register:
-			parts = append(parts, act, "R", encReg(v), b01(operand.IsR32(op)))
+			parts = append(parts, act, "R", encReg(v), b01(c02IsGP32(v)))
 		case operand.Mem:
-			parts = append(parts, act, "M", encRegs(operand.Registers(v)))
+			parts = append(parts, act, "M", encRegs(c02MemRegs(v)))
 		default:
 			parts = append(parts, act, "O")
 		}
@@ -147,8 +394,155 @@ func c02OtherView(r *rng, ops []operand.Op, variant int) bool {
 	return true
 }
 
+// c02Shape counts the operand situations the property text names, as they occur in a judged instruction.
+func c02Shape(stats map[string]int, m *formRow, ops []operand.Op) {
+	k := 0
+	masked := false
+	for j, o := range m.Operands {
+		act := c02Action(m, j)
+		if o.Implicit {
+			stats["shape:implicit_operand"]++
+			continue
+		}
+		op := ops[k]
+		k++
+		switch v := op.(type) {
+		case operand.Mem:
+			if v.Index != nil && v.Index.Kind() == reg.KindVector {
+				stats["shape:mem_vector_index"]++
+			} else if v.Index != nil {
+				stats["shape:mem_gp_index"]++
+			}
+			if act&2 != 0 && len(c02MemRegs(v)) > 0 {
+				stats["shape:written_mem_with_address_registers"]++
+			}
+		case reg.Register:
+			if v.Kind() == reg.KindOpmask && act == 1 && j > 0 && j == len(m.Operands)-2 {
+				masked = true
+				stats["shape:mask_operand"]++
+			}
+			if masked && j == len(m.Operands)-1 && act == 3 {
+				stats["shape:merge_destination"]++
+			}
+			if act&2 != 0 && c02IsGP32(v) {
+				stats["shape:gp32_destination"]++
+			}
+			if v.Mask() == reg.S8H.Mask() && v.Kind() == reg.KindGP {
+				stats["shape:high_byte_register"]++
+			}
+		}
+	}
+}
+
+// c02Chain builds a function in which liveness has to travel through `depth` backward branches one after the
+// other: blocks b[depth-1] … b[0] are laid out top to bottom, execution enters at the bottom block b[0], every
+// block branches BACKWARDS (upwards) to the next one, and the register set before the first branch is read only in
+// the top block. The round-robin analysis (which visits instructions last to first) advances such a fact by one
+// block per sweep, so it needs about `depth` sweeps. Variants: conditional/unconditional branches, extra
+// per-block registers of several widths (each needing a different number of sweeps), partial redefinitions on the
+// way, filler instructions drawn from the form table, an enclosing outer loop.
+func c02Chain(r *rng, db *formsDB, depth, variant int) *ir.Function {
+	g := newFgen(r.fork(), db, genCfg{nGP: 3, nVec: 1, nK: 1, physPct: 30, randomFormPct: 20})
+	fn := g.fn
+	add := func(opc string, ops ...operand.Op) bool {
+		inst, err := x86.VerifBuild(opc, nil, ops)
+		if err != nil || inst == nil {
+			return false
+		}
+		fn.AddInstruction(inst)
+		return true
+	}
+	lbl := func(i int) string { return fmt.Sprintf("b%d", i) }
+	// the carried register: widths and kinds vary with the variant
+	var carried reg.Register
+	var readCarried func()
+	acc := reg.Register(reg.R15)
+	switch variant % 6 {
+	case 0:
+		v := g.col.GP64()
+		carried = v
+		add("MOVQ", operand.U64(1<<40), v)
+		readCarried = func() { add("ADDQ", v, acc) }
+	case 1:
+		v := g.col.GP64()
+		carried = v
+		add("MOVQ", operand.U64(7), v)
+		readCarried = func() { add("ADDB", v.As8H(), reg.AL) } // only byte 1 is read at the top
+	case 2:
+		v := g.col.ZMM()
+		carried = v
+		add("VMOVDQU64", operand.NewParamAddr("x", 0), v)
+		readCarried = func() { add("VPADDD", v, reg.Z0, reg.Z0) }
+	case 3:
+		v := g.col.K()
+		carried = v
+		add("KMOVQ", operand.NewParamAddr("x", 0), v)
+		readCarried = func() { add("KORQ", v, reg.K1, reg.K1) }
+	case 4:
+		carried = reg.R14
+		add("MOVQ", operand.U64(3), reg.R14)
+		readCarried = func() { add("MOVQ", operand.Mem{Base: reg.R14, Index: reg.R14, Scale: 2}, acc) } // read as address registers
+	default:
+		v := g.col.GP32()
+		carried = v
+		add("MOVL", operand.U32(5), v)
+		readCarried = func() { add("ADDL", v, reg.EAX) }
+	}
+	// per-block registers: block i reads side[i], defined up front, so side[i] needs about i sweeps
+	side := make([]reg.GPVirtual, depth)
+	for i := range side {
+		if variant%2 == 1 && i%3 == 0 {
+			side[i] = g.col.GP64()
+			add("MOVQ", operand.U64(uint64(i)), side[i])
+		}
+	}
+	outer := variant%5 == 3
+	if outer {
+		fn.AddLabel(ir.Label("outer"))
+	}
+	add("JMP", operand.LabelRef(lbl(0)))
+	for i := depth - 1; i >= 0; i-- {
+		fn.AddLabel(ir.Label(lbl(i)))
+		if side[i] != nil {
+			add("ADDQ", side[i], acc)
+		}
+		// fillers never touch the carried register (it is not among the generator's registers unless physical)
+		for k := r.intn(3); k > 0; k-- {
+			if f := g.pickForm(false); f != nil {
+				if inst := g.buildForm(f); inst != nil {
+					fn.AddInstruction(inst)
+				}
+			}
+		}
+		if i == depth-1 {
+			readCarried()
+			if outer {
+				add("JNE", operand.LabelRef("outer"))
+			}
+			add("RET")
+			continue
+		}
+		if variant%4 == 2 && i == depth/2 {
+			// partial redefinition on the way: the low byte of a general-purpose carried register is overwritten,
+			// the other bytes stay live through it
+			if gp, ok := carried.(reg.GP); ok {
+				add("MOVB", operand.U8(9), gp.As8L())
+			}
+		}
+		if (variant+i)%3 == 0 {
+			add("JNE", operand.LabelRef(lbl(i+1))) // conditional: falls through into the block below (or off the end)
+			if i == 0 {
+				add("RET")
+			}
+		} else {
+			add("JMP", operand.LabelRef(lbl(i+1)))
+		}
+	}
+	return fn
+}
+
 func init() {
-	register("c02", "liveness on generated functions; use/def extraction on sampled forms", func(args []string) error {
+	register("c02", "liveness on generated functions; use/def extraction on every form", func(args []string) error {
 		f := newStdFlags("c02")
 		if err := f.fs.Parse(args); err != nil {
 			return err
@@ -157,6 +551,7 @@ func init() {
 		if err != nil {
 			return err
 		}
+		c02TheSpec = c02LoadSpec(*f.repo, db)
 		o, err := openOut(f)
 		if err != nil {
 			return err
@@ -164,27 +559,41 @@ func init() {
 		defer o.close()
 		r := newRng(*f.seed)
 		stats := map[string]int{}
+		stats["spec_actions_from_source_names"] = 0
+		if c02TheSpec.usable {
+			stats["spec_actions_from_source_names"] = 1
+			stats["spec_action_rows_differing_from_compiled_table"] = c02TheSpec.disagree
+		}
 
-		// (a) instruction level: every form (thorough: x3 operand choices; quick: a stride), cancelling forms with equal registers
-		stride := 1
+		// (a) instruction level: EVERY form row in every tier (thorough: x3 operand choices), cancelling forms
+		// additionally with equal registers and with the two byte views of one register
 		reps := 1
-		if *f.tier == "quick" {
-			stride = 3
-		} else {
+		if *f.tier != "quick" {
 			reps = 3
 		}
-		start := int(*f.seed) % stride
+		stats["rows_total"] = len(db.rows)
 		for fi := 0; fi < len(db.rows); fi++ {
 			row := &db.rows[fi]
-			// every self-cancelling form is always included (regression for F2); the rest by stride
-			if fi%stride != start && row.Features&featCancelling == 0 {
-				continue
+			canc := row.Features&featCancelling != 0
+			if canc {
+				stats["cancelling_rows"]++
+				// InputRegisters indexes the first two read registers of such a form without a length check
+				ok := len(row.Operands) >= 2
+				for j := 0; ok && j < 2; j++ {
+					t := row.TypeNames[j]
+					isReg := t == "r8" || t == "r16" || t == "r32" || t == "r64" || t == "xmm" || t == "ymm" || t == "zmm" || t == "k"
+					ok = !row.Operands[j].Implicit && isReg && c02Action(row, j)&1 != 0
+				}
+				if !ok {
+					stats["cancelling_rows_not_leading_with_two_read_registers"]++
+				}
 			}
 			nrep := reps
-			if row.Features&featCancelling != 0 {
-				nrep = reps + 4
+			if canc {
+				nrep = reps + 1 + 4
 			}
 			for rep := 0; rep < nrep; rep++ {
+				stats["usedef_attempts"]++
 				g := newFgen(r.fork(), db, genCfg{nGP: 4, nVec: 4, nK: 3, physPct: 40})
 				g.labels = []string{"l"}
 				var ops []operand.Op
@@ -194,15 +603,16 @@ func init() {
 					}
 					ops = append(ops, g.operandFor(row.TypeNames[i], od.Action))
 				}
-				if row.Features&featCancelling != 0 && len(ops) >= 2 && (rep == 0 || r.chance(1, 2)) {
+				if canc && len(ops) >= 2 && rep < reps+1 && (rep == 0 || r.chance(1, 2)) {
 					ops[1] = ops[0] // the self-cancelling situation
 					stats["cancelling_equal"]++
 				}
-				if rep >= reps {
+				if rep >= reps+1 {
 					// extra repetitions of cancelling forms: the two operands are DIFFERENT views of ONE register
 					// (low and high byte of the same virtual or physical register): same identity, other bytes —
 					// not self-cancelling, both are reads
-					if !c02OtherView(r, ops, rep-reps) {
+					if !c02OtherView(r, ops, rep-reps-1) {
+						stats["usedef_attempts"]--
 						continue
 					}
 					stats["cancelling_other_view"]++
@@ -247,24 +657,21 @@ func init() {
 				o.emit("usedef "+req, resp)
 				o.emit("accept-usedef "+req+" => "+resp, "ok")
 				stats["usedef"]++
+				c02Shape(stats, m, ops)
 				if m.Index != row.Index {
 					stats["usedef_other_form_matched"]++
 				}
 			}
 		}
+		for n := range c02ImplUnresolved {
+			stats["implicit_register_name_unresolved:"+n]++
+		}
 
 		// (b) function level
-		for k := 0; k < *f.n; k++ {
-			cfg := genCfg{minInstr: 1, maxInstr: 4 + r.intn(40), nGP: 1 + r.intn(8), nVec: r.intn(5), nK: r.intn(3),
-				physPct: 20 + r.intn(40), branchPct: 10 + r.intn(30), randomFormPct: 30, strict: r.chance(1, 2)}
-			if *f.tier == "thorough" && r.chance(1, 20) {
-				cfg.maxInstr = 100 + r.intn(300)
-			}
-			g := newFgen(r.fork(), db, cfg)
-			fn := g.generate()
+		judge := func(fn *ir.Function, kind string) bool {
 			if !prepLiveness(fn) {
-				stats["cfg_rejected"]++
-				continue
+				stats[kind+"_cfg_rejected"]++
+				return false
 			}
 			// the control-flow graph liveness runs on is itself judged against the opcode-derived specification (C09's acceptor)
 			o.emit("accept-cfg "+encNodes(fn)+" => "+encGraph(fn), "ok")
@@ -278,23 +685,75 @@ func init() {
 			}
 			o.emit("live "+req, resp)
 			o.emit("accept-live "+req+" => "+resp, "ok")
-			stats["functions"]++
+			stats[kind]++
 			stats["instructions"] += len(fn.Instructions())
-			for _, i := range fn.Instructions() {
+			idx := instrIndex(fn)
+			for k, i := range fn.Instructions() {
 				if len(i.Succ) == 2 {
 					stats["cond_branches"]++
 				}
 				for _, s := range i.Succ {
 					if s == nil {
 						stats["nil_succ"]++
+					} else if idx[s] <= k {
+						stats["back_edges"]++
 					}
 				}
 				if len(i.Pred) == 0 {
 					stats["no_pred"]++
 				}
 			}
+			return true
 		}
-		_ = fmt.Sprint
+		// (b1) long chains of backward branches: the number of sweeps the analysis needs grows with the depth
+		variants := 2
+		if *f.tier != "quick" {
+			variants = 12
+		}
+		for depth := 2; depth <= 16; depth++ {
+			for v := 0; v < variants; v++ {
+				if judge(c02Chain(r, db, depth, int(*f.seed)+depth+v*7), "chain_functions") && depth > stats["chain_max_depth"] {
+					stats["chain_max_depth"] = depth
+				}
+			}
+		}
+		// (b1') degenerate shapes: no instruction at all, a single instruction, a one-instruction self-loop, a
+		// conditional self-loop reading and writing one register
+		{
+			mk := func(build func(fn *ir.Function, add func(string, ...operand.Op))) *ir.Function {
+				fn := ir.NewFunction("d")
+				build(fn, func(opc string, ops ...operand.Op) {
+					if inst, err := x86.VerifBuild(opc, nil, ops); err == nil && inst != nil {
+						fn.AddInstruction(inst)
+					}
+				})
+				return fn
+			}
+			judge(mk(func(fn *ir.Function, add func(string, ...operand.Op)) {}), "degenerate_functions")
+			judge(mk(func(fn *ir.Function, add func(string, ...operand.Op)) { add("ADDQ", reg.RBX, reg.RAX) }), "degenerate_functions")
+			judge(mk(func(fn *ir.Function, add func(string, ...operand.Op)) {
+				fn.AddLabel("l")
+				add("JMP", operand.LabelRef("l"))
+			}), "degenerate_functions")
+			judge(mk(func(fn *ir.Function, add func(string, ...operand.Op)) {
+				v := reg.NewCollection().GP64()
+				add("MOVQ", operand.U64(1), v)
+				fn.AddLabel("l")
+				add("ADDB", v.As8H(), v.As8L())
+				add("JNE", operand.LabelRef("l"))
+				add("RET")
+			}), "degenerate_functions")
+		}
+		// (b2) random functions
+		for k := 0; k < *f.n; k++ {
+			cfg := genCfg{minInstr: 1, maxInstr: 4 + r.intn(40), nGP: 1 + r.intn(8), nVec: r.intn(5), nK: r.intn(3),
+				physPct: 20 + r.intn(40), branchPct: 10 + r.intn(30), randomFormPct: 30, strict: r.chance(1, 2)}
+			if *f.tier == "thorough" && r.chance(1, 20) {
+				cfg.maxInstr = 100 + r.intn(300)
+			}
+			g := newFgen(r.fork(), db, cfg)
+			judge(g.generate(), "functions")
+		}
 		return writeJSON(*f.stats, stats)
 	})
 }
